@@ -144,6 +144,119 @@ pub fn all_specs() -> Vec<SpecId> {
 }
 
 // ------------------------------------------------------------------------------------------------
+// A mutated real function may crash (undefined behaviour behind `unsafe`, abort) or never return. The search
+// and the replay therefore run in a child process that records which input it is on; signal handlers
+// report that position (`CRASH ...` / `HANG ...` on stdout) and the parent turns it into a witness.
+
+use std::sync::atomic::{AtomicU64, Ordering::Relaxed};
+pub static CUR_CASE: AtomicU64 = AtomicU64::new(0);
+pub static CUR_PHASE: AtomicU64 = AtomicU64::new(0); // 0 boundary list, 1 seeded random, 2 replay of one input
+pub static CUR_IDX: AtomicU64 = AtomicU64::new(0);
+static IN_REAL: AtomicU64 = AtomicU64::new(0);
+static LAST_SEEN: AtomicU64 = AtomicU64::new(u64::MAX);
+static STUCK: AtomicU64 = AtomicU64::new(0);
+pub const HANG_SECONDS: u64 = 5;
+
+extern "C" {
+    fn signal(signum: i32, handler: usize) -> usize;
+    fn write(fd: i32, buf: *const u8, n: usize) -> isize;
+    fn _exit(code: i32) -> !;
+    fn alarm(seconds: u32) -> u32;
+}
+
+fn put(buf: &mut [u8; 160], n: &mut usize, s: &[u8]) {
+    for c in s {
+        if *n < buf.len() {
+            buf[*n] = *c;
+            *n += 1;
+        }
+    }
+}
+fn put_num(buf: &mut [u8; 160], n: &mut usize, mut v: u64) {
+    let mut d = [0u8; 20];
+    let mut k = 0;
+    loop {
+        d[k] = b'0' + (v % 10) as u8;
+        v /= 10;
+        k += 1;
+        if v == 0 {
+            break;
+        }
+    }
+    while k > 0 {
+        k -= 1;
+        put(buf, n, &d[k..k + 1]);
+    }
+}
+/// async-signal-safe: atomics, a stack buffer, write(2), _exit(2)
+fn report(kind: &[u8], sig: i32, code: i32) -> ! {
+    let mut buf = [0u8; 160];
+    let mut n = 0usize;
+    put(&mut buf, &mut n, b"\n");
+    put(&mut buf, &mut n, kind);
+    put(&mut buf, &mut n, b" case=");
+    put_num(&mut buf, &mut n, CUR_CASE.load(Relaxed));
+    put(&mut buf, &mut n, b" phase=");
+    put_num(&mut buf, &mut n, CUR_PHASE.load(Relaxed));
+    put(&mut buf, &mut n, b" idx=");
+    put_num(&mut buf, &mut n, CUR_IDX.load(Relaxed));
+    put(&mut buf, &mut n, b" sig=");
+    put_num(&mut buf, &mut n, sig as u64);
+    put(&mut buf, &mut n, b" in_real=");
+    put_num(&mut buf, &mut n, IN_REAL.load(Relaxed));
+    put(&mut buf, &mut n, b"\n");
+    unsafe {
+        write(1, buf.as_ptr(), n);
+        _exit(code)
+    }
+}
+extern "C" fn on_crash(sig: i32) {
+    report(b"CRASH", sig, 3)
+}
+extern "C" fn on_alarm(_sig: i32) {
+    if IN_REAL.load(Relaxed) == 1 {
+        let pos = (CUR_PHASE.load(Relaxed) << 56) ^ (CUR_CASE.load(Relaxed) << 44) ^ CUR_IDX.load(Relaxed);
+        if LAST_SEEN.load(Relaxed) == pos {
+            if STUCK.fetch_add(1, Relaxed) + 1 >= HANG_SECONDS {
+                report(b"HANG", 14, 4)
+            }
+        } else {
+            LAST_SEEN.store(pos, Relaxed);
+            STUCK.store(0, Relaxed);
+        }
+    } else {
+        LAST_SEEN.store(u64::MAX, Relaxed);
+        STUCK.store(0, Relaxed);
+    }
+    unsafe {
+        alarm(1);
+    }
+}
+/// child processes only
+pub fn install_guards() {
+    unsafe {
+        for s in [4, 6, 7, 8, 11] {
+            // SIGILL SIGABRT SIGBUS SIGFPE SIGSEGV
+            signal(s, on_crash as extern "C" fn(i32) as usize);
+        }
+        signal(14, on_alarm as extern "C" fn(i32) as usize);
+        alarm(1);
+    }
+}
+
+pub fn signal_name(sig: u64) -> &'static str {
+    match sig {
+        4 => "SIGILL",
+        6 => "SIGABRT",
+        7 => "SIGBUS",
+        8 => "SIGFPE",
+        11 => "SIGSEGV",
+        14 => "SIGALRM",
+        _ => "signal",
+    }
+}
+
+// ------------------------------------------------------------------------------------------------
 // a function under a contract: its input generator, its oracle and the call of the real code
 
 pub type Args = Vec<Val>;
@@ -178,7 +291,10 @@ impl Case {
     /// None: out of domain. Some(outcome): evaluated (agreeing or not)
     pub fn evaluate(&self, args: &[Val]) -> Option<Outcome> {
         let expected = (self.expected)(args)?;
-        let observed = match std::panic::catch_unwind(std::panic::AssertUnwindSafe(|| (self.observed)(args))) {
+        IN_REAL.store(1, Relaxed);
+        let r = std::panic::catch_unwind(std::panic::AssertUnwindSafe(|| (self.observed)(args)));
+        IN_REAL.store(0, Relaxed);
+        let observed = match r {
             Ok(s) => s,
             Err(p) => {
                 let msg = if let Some(s) = p.downcast_ref::<&str>() {
@@ -223,13 +339,36 @@ pub struct SearchStats {
     pub boundary_inputs: u64,
 }
 
+fn case_rng(case: &Case, seed: u64) -> Rng {
+    let mut h: u64 = 0xcbf29ce484222325;
+    for c in case.id.bytes() {
+        h = (h ^ c as u64).wrapping_mul(0x100000001b3);
+    }
+    Rng::new(seed ^ h)
+}
+
+/// the input the search was on (the generator is deterministic): phase 0 = boundary list, 1 = idx-th random draw
+pub fn nth_input(case: &Case, seed: u64, phase: u64, idx: u64) -> Option<Args> {
+    if phase == 0 {
+        (case.boundary)().get(idx as usize).cloned()
+    } else {
+        let mut rng = case_rng(case, seed);
+        for _ in 0..idx {
+            (case.random)(&mut rng);
+        }
+        Some((case.random)(&mut rng))
+    }
+}
+
 /// boundary inputs first, then seeded random ones, until `max_evals` in-domain evaluations or `max_ms`
 pub fn search_case(case: &Case, seed: u64, max_evals: u64, max_ms: u128) -> (Option<Outcome>, SearchStats) {
     let t0 = std::time::Instant::now();
     let mut st = SearchStats { evaluated: 0, skipped: 0, boundary_inputs: 0 };
     let b = (case.boundary)();
     st.boundary_inputs = b.len() as u64;
+    CUR_PHASE.store(0, Relaxed);
     for (k, args) in b.iter().enumerate() {
+        CUR_IDX.store(k as u64, Relaxed);
         match case.evaluate(args) {
             None => st.skipped += 1,
             Some(o) => {
@@ -244,13 +383,11 @@ pub fn search_case(case: &Case, seed: u64, max_evals: u64, max_ms: u128) -> (Opt
             break;
         }
     }
-    let mut h: u64 = 0xcbf29ce484222325;
-    for c in case.id.bytes() {
-        h = (h ^ c as u64).wrapping_mul(0x100000001b3);
-    }
-    let mut rng = Rng::new(seed ^ h);
+    let mut rng = case_rng(case, seed);
     let mut n: u64 = 0;
+    CUR_PHASE.store(1, Relaxed);
     while st.evaluated < max_evals {
+        CUR_IDX.store(n, Relaxed); // number of random inputs drawn before this one
         n += 1;
         if n % 128 == 0 && t0.elapsed().as_millis() > max_ms {
             break;
